@@ -104,3 +104,6 @@ func (i *Instance) Handlers() []directive.ReferenceHandler {
 }
 
 var _ directive.Instance = (*Instance)(nil)
+
+// Mu exposes the instance mutex (for drivers reading the captured callbacks).
+func (i *Instance) Mu() *sync.Mutex { return &i.mu }
